@@ -569,7 +569,8 @@ C14(pre, env, req, resp, post) ==
   ELSE LET m == req.msg  sup == VerSupported(pre.ver) IN
        If((~sup \/ ~MigMsgValid(m)) => (~resp.ok /\ post = pre), "C14.gate")
   \cup If((sup /\ MigMsgValid(m) /\ pre.cfg.set) => resp.ok, "C14.accepts_supported")
-  \cup If(resp.ok => (post.asks = pre.asks /\ ~TouchedNs(resp, "ask")), "C14.asks_untouched")
+  \* "exactly as it was" is judged on the stored values; a byte-level rewrite of an unchanged value is DRIFT only
+  \cup If(resp.ok => post.asks = pre.asks, "C14.asks_untouched")
   \cup If(resp.ok => post.cfg = Overridden(pre.cfg, m), "C14.overrides_exact")
   \cup If(resp.ok => post.ver = PkgVer, "C14.version_stamped")
   \cup If((resp.ok /\ pre.ver = PkgVer /\ Overridden(pre.cfg, m) = pre.cfg) => post = pre, "C14.idempotent")
